@@ -927,3 +927,43 @@ Proof.
       exfalso. apply Hi. right. apply (desired_in_keys t p f c E).
   - intros H [p f] _. unfold mirrors_on. apply opt_eqb_spec. apply H.
 Qed.
+
+(* ------------------------------------------------------------------ what `desired` depends on (frame lemma)
+   Two table states with the same RIB view prescribe the same routes as soon as they agree on the faces of the next
+   hops that occur in it and on the prefix sets of the routers that occur in it.  This is what justifies the daemon's
+   "dirty" logic: a change that leaves the best / second-best next hops and costs of every destination, the faces of
+   those next hops and the prefix sets of RIB routers alone needs no fibUpdate (e.g. a dead neighbour that was nobody's
+   next hop, an announcement by a router that is not in the RIB, our own announcements). *)
+Lemma desired_frame t t' :
+  t_me t' = t_me t -> t_rib t' = t_rib t ->
+  (forall r, In r (t_rib t) -> face_of (t_nbr t') (re_nh1 r) = face_of (t_nbr t) (re_nh1 r) /\
+                                face_of (t_nbr t') (re_nh2 r) = face_of (t_nbr t) (re_nh2 r)) ->
+  (forall r, In r (t_rib t) -> re_l1 r < cost_infinity -> re_name r <> t_me t ->
+             forall p, mem p (pfx_of t' (re_name r)) = mem p (pfx_of t (re_name r))) ->
+  forall p f, desired t' p f = desired t p f.
+Proof.
+  intros Hme Hrib Hface Hpfx p f. unfold desired. apply min_cost_ext. intros c.
+  rewrite !cands_In. rewrite Hrib.
+  split; intros [r [Hr [He [Ha [Hx Hc]]]]]; exists r; (split; [exact Hr|]).
+  - assert (He' : elig t r = true) by (unfold elig in *; rewrite <- Hme; exact He).
+    split; [exact He'|].
+    unfold elig in He'. apply andb_true_iff in He'. destruct He' as [E1 E2].
+    apply negb_true_iff, N.eqb_neq in E2.
+    split; [unfold announces in *; rewrite <- (Hpfx r Hr ltac:(lia) E2 p); exact Ha|].
+    split; [|exact Hc]. unfold get_fib_entries in *. destruct (Hface r Hr) as [F1 F2]. rewrite <- F1, <- F2. exact Hx.
+  - assert (He' : elig t' r = true) by (unfold elig in *; rewrite Hme; exact He).
+    split; [exact He'|].
+    unfold elig in He. apply andb_true_iff in He. destruct He as [E1 E2].
+    apply negb_true_iff, N.eqb_neq in E2.
+    split; [unfold announces in *; rewrite (Hpfx r Hr ltac:(lia) E2 p); exact Ha|].
+    split; [|exact Hc]. unfold get_fib_entries in *. destruct (Hface r Hr) as [F1 F2]. rewrite F1, F2. exact Hx.
+Qed.
+
+(* fibUpdate on tables that prescribe what is already installed changes nothing in the route table *)
+Lemma fib_update_stable ord1 ord2 t st rt : FInv st rt ->
+  (forall p f, rt_lookup rt (p, f) = desired t p f) ->
+  forall p f, rt_lookup (rt_run rt (snd (fib_update_ord ord1 ord2 t st))) (p, f) = rt_lookup rt (p, f).
+Proof.
+  intros HI Hm p f. destruct (fib_update_spec ord1 ord2 t st rt HI) as [A B].
+  rewrite (fi_rt _ _ A), B. symmetry. apply Hm.
+Qed.
